@@ -194,6 +194,38 @@ def run(chk, only_solver_agreement=False):
                                         oracle_bad.append(dict(op="solver agreement: " + op, kernel=kname, test=tname, include_mean=inc,
                                                                pred_kernel=kopt, pred_noise=nkind, expected=np.asarray(a).tolist(),
                                                                observed=np.asarray(b).tolist(), x=x.tolist(), y=y.tolist()))
+    # single precision: all-float32 models with 64-bit types switched off; conditional mean / variance / covariance / log probability at
+    # new inputs and at the training inputs vs the float64 textbook conditional, both solvers, to single-precision accuracy
+    import jax
+    import jax.numpy as jnp
+    from tinygp import GaussianProcess
+    from tinygp.solvers import DirectSolver as _DS, QuasisepSolver as _QS
+    from vcheck import gpcases as _gpc
+    for kname_, mk_, kfun_, x32, dg32, mu32, y32, xt32, fam32 in _gpc.float32_models(np.random.default_rng(chk.seed + 32)):
+        S32 = kfun_(x32[:, None], x32[None, :]) + dg32 * np.eye(len(x32))
+        a32 = np.linalg.solve(S32, y32 - mu32)
+        for tname_, xq in (("new-inputs", xt32), ("absent", None)):
+            xs_ = x32 if xq is None else xq
+            Ks_ = kfun_(x32[:, None], xs_[None, :])
+            Kss_ = kfun_(xs_[:, None], xs_[None, :])
+            want_loc = mu32 + Ks_.T @ a32
+            # (the default predictive noise is the documented jitter sqrt(eps) of the process dtype, float32 here)
+            want_cov = Kss_ - Ks_.T @ np.linalg.solve(S32, Ks_) + np.sqrt(np.finfo(np.float32).eps) * np.eye(len(xs_))
+            for sname_, scls_ in (("direct", _DS),) + ((("quasisep", _QS),) if fam32 == "quasisep" else ()):
+                hist[f"float32/{sname_}/{tname_}"] = hist.get(f"float32/{sname_}/{tname_}", 0) + 1
+                try:
+                    with jax.enable_x64(False):
+                        f32 = jnp.float32
+                        g32 = GaussianProcess(mk_(f32), jnp.asarray(x32, f32), diag=jnp.asarray(dg32, f32), mean=jnp.asarray(mu32, f32), solver=scls_)
+                        c32 = g32.condition(jnp.asarray(y32, f32), None if xq is None else jnp.asarray(xq, f32))
+                        got32 = dict(loc=np.asarray(c32.gp.loc, float), cov=np.asarray(c32.gp.covariance, float), var=np.asarray(c32.gp.variance, float))
+                except Exception as e:  # noqa: BLE001
+                    oracle_bad.append(dict(op=f"condition in float32 [{sname_}, {tname_}]", kernel=kname_, n=len(x32), observed=f"raised {type(e).__name__}: {str(e)[:80]}"))
+                    continue
+                for op_, got_, want_ in (("loc", got32["loc"], want_loc), ("covariance", got32["cov"], want_cov), ("variance", got32["var"], np.diag(want_cov))):
+                    if got_.shape != np.shape(want_) or float(np.max(np.abs(got_ - want_))) > 1e-4 * max(1.0, float(np.max(np.abs(want_)))):
+                        oracle_bad.append(dict(op=f"conditional {op_} in float32 [{sname_}, {tname_}]", kernel=kname_, n=len(x32), x=x32.tolist(), y=y32.tolist(),
+                                               expected=np.asarray(want_).tolist(), observed=got_.tolist()))
     model = coq_eval("c02" if not only_solver_agreement else "c03b", IMPORTS, exprs, defs=DEFS, shard=10)
     for ex, mv in zip(expect, model):
         info, g = ex[0], ex[1]
